@@ -10,11 +10,12 @@
 (***************************************************************************)
 EXTENDS Z80Rle
 
-CONSTANTS Alphabet, MaxLen, MaxRun, MinRun
+CONSTANTS Alphabet, MaxLen, MaxRun, MinRun,
+          EdRuns      \* TRUE: two or more ED bytes always go into a block (the format's rule); Z80Rle_neg.cfg sets FALSE and must fail
 VARIABLES inp, prev, count, out
 evars == <<inp, prev, count, out>>
 
-Emit(p, n) == IF n >= MinRun \/ (p = ED /\ n >= 2) THEN <<ED, ED, n, p>> ELSE Rep(n, p)
+Emit(p, n) == IF n >= MinRun \/ (EdRuns /\ p = ED /\ n >= 2) THEN <<ED, ED, n, p>> ELSE Rep(n, p)
 
 EncInit == inp = <<>> /\ prev = 0 /\ count = 0 /\ out = <<>>
 
